@@ -975,10 +975,18 @@ func makeRootPool(rootCAPool [][]byte, rootCADirs []string, hostname string, hos
 // sortHostCmp to sort host list of mirrors.
 func sortHostsCmp(hosts []*clientHost, upstream string) func(i, j int) bool {
 	now := time.Now()
+	// backoffLast is updated by concurrent requests under the host's mutex, read it once under that mutex
+	last := make(map[*clientHost]time.Time, len(hosts))
+	for _, h := range hosts {
+		h.mu.Lock()
+		last[h] = h.backoffLast
+		h.mu.Unlock()
+	}
 	// sort by backoff first, then priority decending, then upstream name last
 	return func(i, j int) bool {
-		if now.Before(hosts[i].backoffLast) || now.Before(hosts[j].backoffLast) {
-			return hosts[i].backoffLast.Before(hosts[j].backoffLast)
+		li, lj := last[hosts[i]], last[hosts[j]]
+		if now.Before(li) || now.Before(lj) {
+			return li.Before(lj)
 		}
 		if hosts[i].config.Priority != hosts[j].config.Priority {
 			return hosts[i].config.Priority < hosts[j].config.Priority
